@@ -466,11 +466,14 @@ func setGen(c *common.Ctx) {
 }
 
 func init() {
-	props["C17"] = common.Property{
-		Gen: setGen,
-		Exec: func(lines []string) ([]string, []common.Failure) {
-			kind := common.Fields(lines[0])[2]
-			return setKinds[kind].run(lines)
+	props["C17"] = common.Combine(map[string]common.Property{
+		"set": {
+			Gen: setGen,
+			Exec: func(lines []string) ([]string, []common.Failure) {
+				kind := common.Fields(lines[0])[2]
+				return setKinds[kind].run(lines)
+			},
 		},
-	}
+		"flat": {Gen: flatGen, Exec: flatExec},
+	})
 }
